@@ -94,6 +94,34 @@ func genC10(t *rapid.T) c10Case {
 			}
 			oc = groundClause(tr)
 			ground = true
+		case 3: // introduces no new binding: a mandatory clause again, its predicate widened to an interval of the same id
+			mc := gen.Pick(t, c.Mandatory, "echo-of")
+			oc = bq.Clause{S: bq.SPos{Node: mc.S.Node, Binding: mc.S.Binding}, O: bq.OPos{Node: mc.O.Node, Lit: mc.O.Lit, Pred: mc.O.Pred, Binding: mc.O.Binding}}
+			id := ""
+			switch {
+			case mc.P.Pred != nil:
+				id = mc.P.Pred.ID
+			case mc.P.AnchorID != "":
+				id = mc.P.AnchorID
+			case mc.P.Bound != nil:
+				id = mc.P.Bound.ID
+			}
+			if oc.O.Node == nil && oc.O.Lit == nil && oc.O.Pred == nil && oc.O.Binding == "" {
+				oc.O.Binding = fmt.Sprintf("?e%d", i)
+			}
+			if id == "" {
+				oc.P = bq.PPos{Binding: mc.P.Binding} // the same predicate binding: at most one match
+			} else {
+				b := &bq.Bound{ID: id}
+				a := gen.Pick(t, u.Anchors, "echo-anchor")
+				switch gen.Uniform(t, 4, "echo-sides") {
+				case 0:
+					b.Lo = &a
+				case 1:
+					b.Hi = &a
+				}
+				oc.P = bq.PPos{Bound: b}
+			}
 		default:
 			oc = g.GenClauseMixed(fmt.Sprintf("o%d", i), bq.ClauseOpts{})
 		}
@@ -336,7 +364,10 @@ func checkC10(ctx *pbt.Ctx, c c10Case) error {
 			return fmt.Errorf("%q returns a row {%s} that is not a solution of the pattern before the OPTIONAL clauses", fq.String(), k)
 		}
 	}
-	open := multiplicityOpen(bq.Query{From: c.From, Clauses: append(append([]bq.Clause{}, c.Mandatory...), c.Optional...)}, c.Data) || hasBoundForm(c.Optional) || hasBoundForm(c.Mandatory)
+	// "once for each match of the optional clause": a match is a stored triple, so an interval
+	// clause matching the same (s, id, o) at several anchors counts once per anchor; multiplicities
+	// are open only when a triple is stored in more than one listed graph
+	open := multiplicityOpen(bq.Query{From: c.From, Clauses: append(append([]bq.Clause{}, c.Mandatory...), c.Optional...)}, c.Data)
 	want := envKeys(cur, allCols)
 	got := envKeys(R, allCols)
 	if lenient {
